@@ -12,6 +12,8 @@ NBITS = 20
 
 FALSE = frozenset()
 TRUE = frozenset([frozenset()])
+# optional whole-program knowledge: callee usr -> set of member names of *this it may write
+MEMBER_WRITES = {}
 
 ASSIGN_OPS = {'=', '+=', '-=', '*=', '/=', '%=', '&=', '|=', '^=', '<<=', '>>='}
 PURE_FREE = {'isnan', 'isfinite', 'isinf', 'signbit', 'fabs', 'abs', 'floor', 'ceil', 'fmin',
@@ -512,8 +514,9 @@ class Flow:
                     if vk is not None and vk in env:
                         env[vk] = BV.unknown('n%d' % nid)
             if n.get('ckind') == 'member' and n.get('objthis') and not ce.get('mconst') and not ce.get('mstatic'):
+                mw = MEMBER_WRITES.get(ce.get('usr'))
                 for vk in list(env):
-                    if vk.startswith('this.'):
+                    if vk.startswith('this.') and (mw is None or vk[5:] in mw):
                         env[vk] = BV.unknown('n%d.%s' % (nid, vk))
 
     def _env_transfer_init(self, idx, env):
@@ -698,7 +701,11 @@ class Flow:
                     keys += self._lvalue_keys(a)
             if n.get('ckind') == 'member' and not ce.get('mconst') and not ce.get('mstatic'):
                 if n.get('objthis'):
-                    keys.append('this.*')
+                    mw = MEMBER_WRITES.get(ce.get('usr'))
+                    if mw is None:
+                        keys.append('this.*')
+                    else:
+                        keys.extend('this.' + m for m in mw)
                 elif 'obj' in n:
                     keys += self._lvalue_keys(n['obj'])
         return keys
